@@ -37,6 +37,7 @@ add(M + "printf::TimeFormat::apply|extapi|chrono::DateTime::format: the returned
 for n_ in ("#2", "#4"):
     add(M + "printf::Printf::print|unwrap|unwrap on Result::<(), std::io::Error>::unwrap" + n_, "result of write_padding: io::copy of blanks to the output stream fails only when the output does (output-failure category, outside the quantifier)", {"type": "operand_from", "callee": "write_padding"})
 add(X + "MaxCharsCommandSizeLimiter::new_system|extapi|std::iter::Iterator::sum: integer overflow with overflow checks on", "sum of the byte lengths (+1 each) of the environment's strings: they are all resident in memory at once, so the total is below the address-space size")
+add(X + "MaxCharsCommandSizeLimiter::new_system::{closure#0}|assert:overflow|overflow:Add#1", "cost(name) + cost(value) + pointer size for one environment entry: both strings are resident in memory, the sum is far below usize::MAX")
 CLAP_IDS = "the id comes from a constant array of option ids declared in the same argument table; whether it exists and has this type is the same on every run"
 add(X + "do_xargs::{closure#0}|extapi|clap::ArgMatches::contains_id: panics (debug) when the id is unknown", CLAP_IDS)
 add(X + "do_xargs::{closure#0}::{closure#0}|extapi|clap::ArgMatches::get_one: panics when the id is unknown or the type differs from the argument's value parser", CLAP_IDS)
